@@ -36,7 +36,7 @@ def write_and_run(prop, name, o, w):
             p = subprocess.run([RUNPY, os.path.join(VERIF, "pyvc", "native_replay.py"), path], capture_output=True,
                                text=True, timeout=60, env=dict(os.environ, PYVC_SRC=w.src, PYTHONPATH=w.src))
             rec["native"] = {"exit": p.returncode, "stdout": p.stdout[-3000:], "stderr": p.stderr[-1500:]}
-            reproduced = p.returncode == 1
+            reproduced = p.returncode == 10
         except Exception as e:          # noqa
             rec["native"] = {"error": repr(e)}
         rec["reproduced"] = reproduced
@@ -75,7 +75,7 @@ def rerun(path):
         p = subprocess.run([RUNPY, os.path.join(VERIF, "pyvc", "native_replay.py"), path], text=True,
                            env=dict(os.environ, PYVC_SRC=os.environ.get("PYVC_SRC", "/repo/src"),
                                     PYTHONPATH=os.environ.get("PYVC_SRC", "/repo/src")))
-        if p.returncode == 1:
+        if p.returncode == 10:
             print(f"VIOLATION property={rec['property']} replay={path}")
             return 1
         print("native replay did not reproduce the failure on this tree (exit %d)" % p.returncode)
